@@ -178,6 +178,28 @@ template <typename F, int L> static void op_reflect(const Case& c, Outcome& o) {
   auto h = glm::reflect(g, N); rec<F, L>(o, h); for (int k = 0; k < L; ++k) o.want[k] = FT<F>::bits(I[k]);
   for (int k = 0; k < L; ++k) if (!LE(aW((W)h[k] - (W)I[k]), 2 * tol)) { o.bad(3, "reflect(reflect(I,N),N) != I for unit N"); return; }
 }
+// ------------------------------------------------------------------------------------------------ faceforward
+// sign of dot(Nref,I): decided exactly when every product and every partial sum is exact in F in any summation order (all products
+// multiples of a common quantum q, sum|p| < 2^MANT q); otherwise only when |d| exceeds 4 L u S.  Undecided inputs accept N or -N.
+template <typename F> static inline int lowbit(F p) { int e; F m = std::frexp(p, &e); long long M = (long long)std::ldexp((double)(m < 0 ? -m : m), FT<F>::MANT); return e - FT<F>::MANT + __builtin_ctzll((unsigned long long)M); }
+// error-free transformations: is the F product / sum exact?
+template <typename F> static inline bool xmul(F a, F b, F& p) { p = a * b; return finite(p) && std::fma(a, b, -p) == 0 && !(p == 0 && a != 0 && b != 0); }
+template <typename F> static inline bool xadd(F a, F b, F& s) { s = a + b; F bb = s - a; return finite(s) && (a - (s - bb)) + (b - bb) == 0; }
+template <typename F, int L> static int dotsign(const glm::vec<L, F>& a, const glm::vec<L, F>& b, bool& decided, bool* isexact = nullptr) {
+  TW; bool exact = true; int q = INT_MAX; W d = 0, S = 0;
+  for (int k = 0; k < L; ++k) { F p = a[k] * b[k]; if (std::fma(a[k], b[k], -p) != 0 || (p == 0 && a[k] != 0 && b[k] != 0)) exact = false; if (p != 0) { int lb = lowbit<F>(p); if (lb < q) q = lb; } W pw = (W)a[k] * (W)b[k]; d += pw; S += aW(pw); }
+  if (exact && S != 0 && !(std::ldexp(S, -q) < std::ldexp((W)1, FT<F>::MANT))) exact = false;
+  if (isexact) *isexact = exact;
+  if (exact) { decided = true; return d < 0 ? -1 : d > 0 ? 1 : 0; }   // d is exact here: W has at least MANT bits
+  decided = aW(d) > 4 * L * u * S + L * (W)std::numeric_limits<F>::denorm_min(); return d < 0 ? -1 : 1;   // second term: products that underflow
+}
+template <typename F, int L> static void op_faceforward(const Case& c, Outcome& o) {
+  auto N = ld<F, L>(c.w), I = ld<F, L>(c.w + L), R = ld<F, L>(c.w + 2 * L); for (int k = 0; k < L; ++k) if (!finite(N[k]) || !finite(I[k]) || !finite(R[k])) { o.nontrivial = false; return; }
+  bool decided; int s = dotsign<F, L>(R, I, decided); auto g = glm::faceforward(N, I, R); rec<F, L>(o, g);
+  if (!decided) { o.cls(3); for (int k = 0; k < L; ++k) if (!(g[k] == N[k]) && !(g[k] == -N[k])) { o.bad(2, "faceforward returns neither N nor -N"); return; } return; }
+  o.cls(s < 0 ? 0 : s == 0 ? 1 : 2); for (int k = 0; k < L; ++k) o.want[k] = FT<F>::bits(s < 0 ? N[k] : -N[k]); o.nwant = L;
+  for (int k = 0; k < L; ++k) if (!(g[k] == (s < 0 ? N[k] : -N[k]))) { o.bad(1, "faceforward(N,I,Nref) must be N if dot(Nref,I) < 0 and -N otherwise"); return; }
+}
 // ------------------------------------------------------------------------------------------------ refract
 // eta selector: 0..6 fixed ratios, 7..9 the critical ratio 1/sqrt(1-d^2) of this (I,N) pair rounded to F and its two neighbours
 template <typename F> static F eta_of(uint64_t sel, typename FT<F>::W d) {
@@ -193,36 +215,21 @@ template <typename F, int L, typename CALL> static void refract_core(const Case&
   W d = 0, S = 0, ii = n2<F, L>(I), nn = n2<F, L>(N); for (int k = 0; k < L; ++k) { W p = (W)N[k] * I[k]; d += p; S += aW(p); }
   F etaf = eta_of<F>(c.w[2 * L], d); W eta = etaf; if (!(eta > 0) || !(eta * eta * (1 + S * S) * (1 + nn) <= FT<F>::hi2())) { o.nontrivial = false; return; }
   W omd = 1 - d * d, k = 1 - eta * eta * omd, ek = u * (2 + eta * eta * (4 + 4 * aW(omd) + 2 * L * S * aW(d) + 2 * d * d)), band = 4 * ek;
+  // if every intermediate of k is exact in F (in either association of eta*eta*(1-d*d)) the branch is decided exactly: band = 0
+  bool dec, ex = false; dotsign<F, L>(N, I, dec, &ex); { F dF = (F)d, t1, t2, t3, t4, t5, t6; ex = ex && xmul<F>(dF, dF, t1) && xadd<F>((F)1, -t1, t2) && xmul<F>(etaf, etaf, t3) && xmul<F>(t3, t2, t4) && xmul<F>(etaf, t2, t5) && xadd<F>((F)1, -t4, t6); }
+  if (ex) band = 0;
   glm::vec<L, F> g = call(I, N, etaf); rec<F, L>(o, g); bool zero = true; for (int i = 0; i < L; ++i) if (!(g[i] == 0)) zero = false;
   if (k < -band) { o.cls(1); for (int i = 0; i < L; ++i) o.want[i] = 0; o.nwant = L; if (!zero) { if (L == 1 && g[0] != g[0]) o.kf = -2; o.bad(1, "refract: total internal reflection (k < 0) must return exactly the zero vector"); } return; }
-  bool crit = !(k > band); o.cls(crit ? 2 : 0); if (crit && zero) return;
-  W smax = crit ? std::sqrt(k + band + band) : 0, sq = crit ? smax / 2 : std::sqrt(k), sqerr = crit ? smax / 2 : band / sq, r[L], tol[L];
+  bool crit = !ex && !(k > band); o.cls(crit ? 2 : 0); if (crit && zero) return;
+  W smax = crit ? std::sqrt(k + band + band) : 0, sq = crit ? smax / 2 : std::sqrt(k), sqerr = crit ? smax / 2 : ex ? 0 : band / sq, r[L], tol[L];
   for (int i = 0; i < L; ++i) { r[i] = eta * I[i] - (eta * d + sq) * N[i]; tol[i] = 4 * u * (2 * aW(eta * I[i]) + aW((W)N[i]) * (eta * L * S + 4 * (aW(eta * d) + sq))) + aW((W)N[i]) * sqerr; } recw<F, L>(o, r);
-  for (int i = 0; i < L; ++i) if (!LE(aW((W)g[i] - r[i]), tol[i])) { if (L == 1 && crit && g[0] != g[0]) o.kf = -2; o.bad(2, "refract: not eta I - (eta dot(N,I) + sqrt(k)) N within rounding"); return; }
+  for (int i = 0; i < L; ++i) if (!(crit ? LE(aW((W)g[i] - r[i]), tol[i]) /* band: by construction up to 1 */ : LE(aW((W)g[i] - r[i]), tol[i]))) { if (L == 1 && crit && g[0] != g[0]) o.kf = -2; o.bad(2, "refract: not eta I - (eta dot(N,I) + sqrt(k)) N within rounding"); return; }
   if (crit || !LE(aW(ii - 1), 4 * u) || !LE(aW(nn - 1), 4 * u)) return;
   W tn = 0, tt = 0, tnt = 0, ttt = 0; for (int i = 0; i < L; ++i) { tn += (W)g[i] * N[i]; tt += (W)g[i] * g[i]; tnt += aW((W)N[i]) * tol[i]; ttt += aW(r[i]) * tol[i]; }
   W scale = eta * (1 + aW(d)) + sq;
   for (int i = 0; i < L; ++i) { W tp = (W)g[i] - tn * N[i], ip = eta * ((W)I[i] - d * N[i]); if (!LE(aW(tp - ip), tol[i] + aW((W)N[i]) * tnt + 8 * u * scale)) { o.bad(3, "refract: Snell's law (eta sin(theta_i) = sin(theta_t), coplanarity) violated for unit I, N"); return; } }
   if (!LE(aW(tt - 1), 2 * ttt + 16 * u * (1 + scale * scale))) { o.bad(4, "refract: refracted vector of unit I, N is not of unit length"); return; }
   if (!(tn <= tnt + 4 * u)) { o.bad(5, "refract: refracted vector does not point away from N"); return; }
-}
-// ------------------------------------------------------------------------------------------------ faceforward
-// sign of dot(Nref,I): decided exactly when every product and every partial sum is exact in F in any summation order (all products
-// multiples of a common quantum q, sum|p| < 2^MANT q); otherwise only when |d| exceeds 4 L u S.  Undecided inputs accept N or -N.
-template <typename F> static inline int lowbit(F p) { int e; F m = std::frexp(p, &e); long long M = (long long)std::ldexp((double)(m < 0 ? -m : m), FT<F>::MANT); return e - FT<F>::MANT + __builtin_ctzll((unsigned long long)M); }
-template <typename F, int L> static int dotsign(const glm::vec<L, F>& a, const glm::vec<L, F>& b, bool& decided) {
-  TW; bool exact = true; int q = INT_MAX; W d = 0, S = 0;
-  for (int k = 0; k < L; ++k) { F p = a[k] * b[k]; if (std::fma(a[k], b[k], -p) != 0 || (p == 0 && a[k] != 0 && b[k] != 0)) exact = false; if (p != 0) { int lb = lowbit<F>(p); if (lb < q) q = lb; } W pw = (W)a[k] * (W)b[k]; d += pw; S += aW(pw); }
-  if (exact && S != 0 && !(std::ldexp(S, -q) < std::ldexp((W)1, FT<F>::MANT))) exact = false;
-  if (exact) { decided = true; return d < 0 ? -1 : d > 0 ? 1 : 0; }   // d is exact here: W has at least MANT bits
-  decided = aW(d) > 4 * L * u * S + L * (W)std::numeric_limits<F>::denorm_min(); return d < 0 ? -1 : 1;   // second term: products that underflow
-}
-template <typename F, int L> static void op_faceforward(const Case& c, Outcome& o) {
-  auto N = ld<F, L>(c.w), I = ld<F, L>(c.w + L), R = ld<F, L>(c.w + 2 * L); for (int k = 0; k < L; ++k) if (!finite(N[k]) || !finite(I[k]) || !finite(R[k])) { o.nontrivial = false; return; }
-  bool decided; int s = dotsign<F, L>(R, I, decided); auto g = glm::faceforward(N, I, R); rec<F, L>(o, g);
-  if (!decided) { o.cls(3); for (int k = 0; k < L; ++k) if (!(g[k] == N[k]) && !(g[k] == -N[k])) { o.bad(2, "faceforward returns neither N nor -N"); return; } return; }
-  o.cls(s < 0 ? 0 : s == 0 ? 1 : 2); for (int k = 0; k < L; ++k) o.want[k] = FT<F>::bits(s < 0 ? N[k] : -N[k]); o.nwant = L;
-  for (int k = 0; k < L; ++k) if (!(g[k] == (s < 0 ? N[k] : -N[k]))) { o.bad(1, "faceforward(N,I,Nref) must be N if dot(Nref,I) < 0 and -N otherwise"); return; }
 }
 // ------------------------------------------------------------------------------------------------ proj / perp
 // proj = d/nn * n : d abs err L u S, nn rel L u, division u, product u -> u |n_i|/nn (L S + (L+2)|d|) ; perp adds u(|x_i| + |P_i|)
@@ -337,31 +344,34 @@ template <typename F, int L> static void regL(Engine& E, const std::string& t) {
   const std::string s = "<" + t + "," + std::to_string(L) + ">";
   Domain V = VSET<F>(L), VS = VSUB<F>(L), VT = VTAG<F>(L), U = UNIT<F>(L, false), UF = UNIT<F>(L, true), NR = NEAR<F>(L), SEL = range("ETA(7 fixed + critical-1ulp,critical,critical+1ulp)", 0, 10, true);
   Domain PAIRS = product(V.name + "^2", {V, V});
-  { Op& op = E.add("dot/length/distance/length2/distance2" + s, op_dot<F, L>); op.quick = {PAIRS, NR}; op.classes = {"orthogonal", "general"}; }
+  Domain VB = vset<F>(L, {-3, -2, -1, -0.5L, 0, 0.5L, 1, 2, 3}, true, "{-3..3,+-0.5}^L+TAG+2^+-20"), PB = product(VB.name + "^2", {VB, VB});   // thorough tier
+  { Op& op = E.add("dot/length/distance/length2/distance2" + s, op_dot<F, L>); op.quick = {PAIRS, NR}; op.thorough = {PB, NR}; op.classes = {"orthogonal", "general"}; }
   { Op& op = E.add("normalize" + s, op_normalize<F, L>); op.quick = {V, U, NR}; op.thorough = {V, UF, NR}; op.classes = {"unit-input", "non-unit-input"}; }
-  { Op& op = E.add("reflect" + s, op_reflect<F, L>); op.quick = {PAIRS, NR, product(V.name + " x " + U.name, {V, U})}; op.thorough = {PAIRS, NR, product(V.name + " x " + UF.name, {V, UF})}; op.classes = {"unit-N", "general-N"}; }
+  { Op& op = E.add("reflect" + s, op_reflect<F, L>); op.quick = {PAIRS, NR, product(V.name + " x " + U.name, {V, U})}; op.thorough = {PB, NR, product(VB.name + " x " + UF.name, {VB, UF})}; op.classes = {"unit-N", "general-N"}; }
   { Op& op = E.add("refract" + s, op_refract<F, L>); op.quick = {product(U.name + "^2 x ETA", {U, U, SEL}), product(V.name + " x " + VT.name + " x ETA", {V, VT, SEL}), product("NEAR x ETA", {NR, SEL})};
     op.thorough = {product(UF.name + "^2 x ETA", {UF, UF, SEL}), product(V.name + "^2 x ETA", {V, V, SEL}), product("NEAR x ETA", {NR, SEL})};
     op.classes = L == 1 ? std::vector<std::string>{"refraction", "total-internal-reflection"} : std::vector<std::string>{"refraction", "total-internal-reflection", "critical-band"}; }
   { Op& op = E.add("faceforward" + s, op_faceforward<F, L>); op.quick = {product(VT.name + " x " + V.name + "^2", {VT, V, V}), product(VT.name + " x NEAR", {VT, NR}), product(VT.name + " x FFSPEC", {VT, FFSPEC<F>(L)})};
+    { std::vector<uint64_t> n3; push<F>(n3, TAGS[0], L); push<F>(n3, TAGS[3], L); push<F>(n3, TAGS[5], L); Domain NT = rows("3 TAG normals", L, n3); op.thorough = op.quick; op.thorough.push_back(product("3 TAG normals x " + VB.name + "^2", {NT, VB, VB})); }
     op.classes = {"dot<0", "dot==0", "dot>0"}; }
-  { Op& op = E.add("proj/perp" + s, op_projperp<F, L>); op.quick = {PAIRS, NR}; op.classes = {"orthogonal", "parallel", "general"}; }
+  { Op& op = E.add("proj/perp" + s, op_projperp<F, L>); op.quick = {PAIRS, NR}; op.thorough = {PB, NR}; op.classes = {"orthogonal", "parallel", "general"}; }
   { Op& op = E.add("angle" + std::string(L == 2 ? "/orientedAngle" : "") + s, op_angle<F, L>); op.quick = {product(U.name + "^2", {U, U})}; op.thorough = {product(UF.name + "^2", {UF, UF})}; op.classes = L == 1 ? std::vector<std::string>{"parallel-or-antiparallel"} : std::vector<std::string>{"parallel-or-antiparallel", "orthogonal", "general"}; }
 }
 template <typename F> static void reg(Engine& E, const std::string& t) {
   regL<F, 1>(E, t); regL<F, 2>(E, t); regL<F, 3>(E, t); regL<F, 4>(E, t);
+  Domain B3 = vset<F>(3, {-3, -2, -1, -0.5L, 0, 0.5L, 1, 2, 3}, true, "{-3..3,+-0.5}^L+TAG+2^+-20"), B2 = vset<F>(2, {-3, -2, -1, -0.5L, 0, 0.5L, 1, 2, 3}, true, "{-3..3,+-0.5}^L+TAG+2^+-20");
   Domain V3 = VSET<F>(3), S3 = VSUB<F>(3), T3 = VTAG<F>(3), U3 = UNIT<F>(3, false), N3 = NEAR<F>(3), V2 = VSET<F>(2), N2 = NEAR<F>(2), DEPTH = range("Depth 1..4", 1, 4, true);
-  { Op& op = E.add("gtx/norm l1Norm/l2Norm/lMaxNorm/lxNorm<" + t + ",3>", op_norm3<F>); op.quick = {product(V3.name + "^2 x Depth", {V3, V3, DEPTH}), product("NEAR x Depth", {N3, DEPTH})}; op.classes = {"depth!=2", "depth==2"}; }
-  { Op& op = E.add("cross<" + t + ",3>", op_cross3<F>); op.quick = {product(V3.name + "^2", {V3, V3}), N3}; op.classes = {"parallel", "general"}; }
-  { Op& op = E.add("gtx cross<" + t + ",2>", op_cross2<F>); op.quick = {product(V2.name + "^2", {V2, V2}), N2}; op.classes = {"parallel", "general"}; }
+  { Op& op = E.add("gtx/norm l1Norm/l2Norm/lMaxNorm/lxNorm<" + t + ",3>", op_norm3<F>); op.quick = {product(V3.name + "^2 x Depth", {V3, V3, DEPTH}), product("NEAR x Depth", {N3, DEPTH})}; op.thorough = {product(B3.name + "^2 x Depth", {B3, B3, DEPTH}), product("NEAR x Depth", {N3, DEPTH})}; op.classes = {"depth!=2", "depth==2"}; }
+  { Op& op = E.add("cross<" + t + ",3>", op_cross3<F>); op.quick = {product(V3.name + "^2", {V3, V3}), N3}; op.thorough = {product(B3.name + "^2", {B3, B3}), N3}; op.classes = {"parallel", "general"}; }
+  { Op& op = E.add("gtx cross<" + t + ",2>", op_cross2<F>); op.quick = {product(V2.name + "^2", {V2, V2}), N2}; op.thorough = {product(B2.name + "^2", {B2, B2}), N2}; op.classes = {"parallel", "general"}; }
   { Op& op = E.add("mixedProduct/triangleNormal<" + t + ">", op_triple<F>); op.quick = {product(S3.name + "^3", {S3, S3, S3}), product("NEAR x " + T3.name, {N3, T3})}; op.thorough = {product(V3.name + "^3", {V3, V3, V3}), product("NEAR x " + T3.name, {N3, T3})}; op.classes = {"degenerate-triangle", "triangle"}; }
-  { Op& op = E.add("orthonormalize(vec3,vec3)<" + t + ">", op_orthov<F>); op.quick = {product(V3.name + " x " + U3.name, {V3, U3}), product(U3.name + "^2", {U3, U3})}; op.classes = {"parallel(skipped)", "already-orthogonal", "general"}; }
+  { Op& op = E.add("orthonormalize(vec3,vec3)<" + t + ">", op_orthov<F>); op.quick = {product(V3.name + " x " + U3.name, {V3, U3}), product(U3.name + "^2", {U3, U3})}; { Domain UF3 = UNIT<F>(3, true); op.thorough = {product(B3.name + " x " + UF3.name, {B3, UF3}), product(UF3.name + "^2", {UF3, UF3})}; } op.classes = {"parallel(skipped)", "already-orthogonal", "general"}; }
   { std::vector<uint64_t> a3, a5; for (long double v : {-1.0L, 0.0L, 1.0L}) a3.push_back(FT<F>::bits((F)v)); for (long double v : {-2.0L, -1.0L, 0.0L, 1.0L, 2.0L}) a5.push_back(FT<F>::bits((F)v));
     Domain A3 = list("{-1,0,1}", a3, true), A5 = list("{-2..2}", a5, true); Op& op = E.add("orthonormalize(mat3)<" + t + ">", op_orthom<F>);
     op.quick = {product("{-1,0,1}^9", {A3, A3, A3, A3, A3, A3, A3, A3, A3}), product(T3.name + "^3", {T3, T3, T3})}; op.thorough = {product("{-2..2}^9", {A5, A5, A5, A5, A5, A5, A5, A5, A5}), product(T3.name + "^3", {T3, T3, T3})};
     op.classes = {"singular(skipped)", "already-orthogonal", "general"}; }
-  { Op& op = E.add("orientedAngle(vec3,vec3,ref)<" + t + ">", op_oangle3<F>); op.quick = {product(U3.name + "^2 x " + T3.name, {U3, U3, T3})}; op.classes = {"negative", "positive", "ref-in-plane"}; }
-  { Op& op = E.add("closestPointOnLine<" + t + ",2>", op_closest<F, 2>); op.quick = {product(V2.name + "^3", {V2, V2, V2}), product(V2.name + " x NEAR", {V2, N2})}; op.classes = {"before-a", "interior", "beyond-b"}; }
+  { Op& op = E.add("orientedAngle(vec3,vec3,ref)<" + t + ">", op_oangle3<F>); op.quick = {product(U3.name + "^2 x " + T3.name, {U3, U3, T3})}; { Domain UF3 = UNIT<F>(3, true); op.thorough = {product(UF3.name + "^2 x " + T3.name, {UF3, UF3, T3})}; } op.classes = {"negative", "positive", "ref-in-plane"}; }
+  { Op& op = E.add("closestPointOnLine<" + t + ",2>", op_closest<F, 2>); op.quick = {product(V2.name + "^3", {V2, V2, V2}), product(V2.name + " x NEAR", {V2, N2})}; op.thorough = {product(B2.name + "^3", {B2, B2, B2}), product(B2.name + " x NEAR", {B2, N2})}; op.classes = {"before-a", "interior", "beyond-b"}; }
   { Op& op = E.add("closestPointOnLine<" + t + ",3>", op_closest<F, 3>); op.quick = {product(S3.name + "^3", {S3, S3, S3}), product(S3.name + " x NEAR", {S3, N3})}; op.thorough = {product(V3.name + "^3", {V3, V3, V3}), product(V3.name + " x NEAR", {V3, N3})}; op.classes = {"before-a", "interior", "beyond-b"}; }
   // scalar genType overloads
   std::vector<uint64_t> sv; for (long double v : {0.0L, 0.5L, 1.0L, 2.0L, 3.0L, 0.1L, 0.7L, 1.0L / 3, 1.33L, 1 / 1.33L, 0.99L, 1048576.0L, 1.0L / 1048576, 7.0L}) { sv.push_back(FT<F>::bits((F)v)); sv.push_back(FT<F>::bits((F)-v)); }
